@@ -144,6 +144,8 @@ func runSeq(plan *Plan, tape *simrt.Tape) *Outcome { return runSeqHooked(plan, t
 // first generation, post runs after the last generation (crash / corruption engines evaluate
 // their snapshots there).
 func runSeqHooked(plan *Plan, tape *simrt.Tape, setup func(x *seqExec), post func(x *seqExec)) *Outcome {
+	pl := *plan // (a route change at a restart replaces Cfg.Served: keep the caller's plan as generated)
+	plan = &pl
 	out := &Outcome{Seed: plan.Seed, Prop: plan.Prop}
 	dir := mkWorldDir()
 	defer os.RemoveAll(dir)
@@ -902,6 +904,26 @@ func (x *seqExec) applyRestart(op *Op) {
 	x.gen++
 	if op == nil {
 		return
+	}
+	if op.Route != nil && x.plan.Cfg.NumBucket > 1 {
+		// route change: the next generation serves another set of buckets. A bucket that is no
+		// longer served keeps its directory; its keys must miss and nothing may be stored for them.
+		// A bucket that is served (again) carries whatever its directory holds.
+		x.plan.Cfg.Served = append([]int(nil), op.Route...)
+		x.sim.Cfg.Served = x.plan.Cfg.Served
+		for i, k := range x.plan.Keys {
+			was := x.m.Keys[i].Unserved
+			now := !x.plan.Cfg.served(bucketOf(&x.plan.Cfg, k))
+			x.m.Keys[i].Unserved = now
+			if was != now {
+				if now {
+					x.out.probe("route-change:key-no-longer-served")
+				} else {
+					x.out.probe("route-change:key-served-again")
+				}
+			}
+		}
+		x.out.fault("route-change-at-restart")
 	}
 	if x.plan.Prop == "C10" && op.DelSeed%2 == 1 && !op.Kill {
 		defer x.plantGoCompressed(op.DelSeed)
